@@ -46,18 +46,18 @@ Spec/Canonical.vos Spec/Canonical.vok Spec/Canonical.required_vos: Spec/Canonica
 Proofs/C03P.vo Proofs/C03P.glob Proofs/C03P.v.beautified Proofs/C03P.required_vo: Proofs/C03P.v Model/Base.vo Model/Schema.vo Model/Typed.vo Model/Inst.vo Spec/Tables.vo Spec/Canonical.vo
 Proofs/C03P.vio: Proofs/C03P.v Model/Base.vio Model/Schema.vio Model/Typed.vio Model/Inst.vio Spec/Tables.vio Spec/Canonical.vio
 Proofs/C03P.vos Proofs/C03P.vok Proofs/C03P.required_vos: Proofs/C03P.v Model/Base.vos Model/Schema.vos Model/Typed.vos Model/Inst.vos Spec/Tables.vos Spec/Canonical.vos
-Properties/C03.vo Properties/C03.glob Properties/C03.v.beautified Properties/C03.required_vo: Properties/C03.v Model/Base.vo Model/Schema.vo Model/Typed.vo Model/Inst.vo Spec/Tables.vo Spec/Canonical.vo Proofs/C03P.vo
-Properties/C03.vio: Properties/C03.v Model/Base.vio Model/Schema.vio Model/Typed.vio Model/Inst.vio Spec/Tables.vio Spec/Canonical.vio Proofs/C03P.vio
-Properties/C03.vos Properties/C03.vok Properties/C03.required_vos: Properties/C03.v Model/Base.vos Model/Schema.vos Model/Typed.vos Model/Inst.vos Spec/Tables.vos Spec/Canonical.vos Proofs/C03P.vos
+Properties/C03.vo Properties/C03.glob Properties/C03.v.beautified Properties/C03.required_vo: Properties/C03.v Model/Base.vo Model/Schema.vo Model/Wire.vo Model/Typed.vo Model/Procs.vo Model/Inst.vo Spec/Tables.vo Spec/ProcTables.vo Spec/Canonical.vo Proofs/WireP.vo Proofs/SerP.vo Proofs/FramingP.vo Proofs/C03P.vo
+Properties/C03.vio: Properties/C03.v Model/Base.vio Model/Schema.vio Model/Wire.vio Model/Typed.vio Model/Procs.vio Model/Inst.vio Spec/Tables.vio Spec/ProcTables.vio Spec/Canonical.vio Proofs/WireP.vio Proofs/SerP.vio Proofs/FramingP.vio Proofs/C03P.vio
+Properties/C03.vos Properties/C03.vok Properties/C03.required_vos: Properties/C03.v Model/Base.vos Model/Schema.vos Model/Wire.vos Model/Typed.vos Model/Procs.vos Model/Inst.vos Spec/Tables.vos Spec/ProcTables.vos Spec/Canonical.vos Proofs/WireP.vos Proofs/SerP.vos Proofs/FramingP.vos Proofs/C03P.vos
 Proofs/FramingP.vo Proofs/FramingP.glob Proofs/FramingP.v.beautified Proofs/FramingP.required_vo: Proofs/FramingP.v Model/Base.vo Model/Schema.vo Model/Wire.vo Model/Typed.vo Model/Procs.vo Model/Inst.vo Spec/Tables.vo Spec/ProcTables.vo Proofs/Finite.vo
 Proofs/FramingP.vio: Proofs/FramingP.v Model/Base.vio Model/Schema.vio Model/Wire.vio Model/Typed.vio Model/Procs.vio Model/Inst.vio Spec/Tables.vio Spec/ProcTables.vio Proofs/Finite.vio
 Proofs/FramingP.vos Proofs/FramingP.vok Proofs/FramingP.required_vos: Proofs/FramingP.v Model/Base.vos Model/Schema.vos Model/Wire.vos Model/Typed.vos Model/Procs.vos Model/Inst.vos Spec/Tables.vos Spec/ProcTables.vos Proofs/Finite.vos
 Properties/C17.vo Properties/C17.glob Properties/C17.v.beautified Properties/C17.required_vo: Properties/C17.v Model/Base.vo Model/Schema.vo Model/Wire.vo Model/Typed.vo Model/Procs.vo Model/Inst.vo Spec/Tables.vo Spec/ProcTables.vo Proofs/Finite.vo Proofs/FramingP.vo
 Properties/C17.vio: Properties/C17.v Model/Base.vio Model/Schema.vio Model/Wire.vio Model/Typed.vio Model/Procs.vio Model/Inst.vio Spec/Tables.vio Spec/ProcTables.vio Proofs/Finite.vio Proofs/FramingP.vio
 Properties/C17.vos Properties/C17.vok Properties/C17.required_vos: Properties/C17.v Model/Base.vos Model/Schema.vos Model/Wire.vos Model/Typed.vos Model/Procs.vos Model/Inst.vos Spec/Tables.vos Spec/ProcTables.vos Proofs/Finite.vos Proofs/FramingP.vos
-Properties/C02.vo Properties/C02.glob Properties/C02.v.beautified Properties/C02.required_vo: Properties/C02.v Model/Base.vo Model/Schema.vo Model/Wire.vo Model/Typed.vo Model/Procs.vo Model/Inst.vo Spec/Tables.vo Spec/ProcTables.vo Proofs/Finite.vo Proofs/FramingP.vo
-Properties/C02.vio: Properties/C02.v Model/Base.vio Model/Schema.vio Model/Wire.vio Model/Typed.vio Model/Procs.vio Model/Inst.vio Spec/Tables.vio Spec/ProcTables.vio Proofs/Finite.vio Proofs/FramingP.vio
-Properties/C02.vos Properties/C02.vok Properties/C02.required_vos: Properties/C02.v Model/Base.vos Model/Schema.vos Model/Wire.vos Model/Typed.vos Model/Procs.vos Model/Inst.vos Spec/Tables.vos Spec/ProcTables.vos Proofs/Finite.vos Proofs/FramingP.vos
+Properties/C02.vo Properties/C02.glob Properties/C02.v.beautified Properties/C02.required_vo: Properties/C02.v Model/Base.vo Model/Schema.vo Model/Wire.vo Model/Typed.vo Model/Procs.vo Model/Inst.vo Spec/Tables.vo Spec/ProcTables.vo Proofs/Finite.vo Spec/Canonical.vo Proofs/WireP.vo Proofs/SerP.vo Proofs/FramingP.vo
+Properties/C02.vio: Properties/C02.v Model/Base.vio Model/Schema.vio Model/Wire.vio Model/Typed.vio Model/Procs.vio Model/Inst.vio Spec/Tables.vio Spec/ProcTables.vio Proofs/Finite.vio Spec/Canonical.vio Proofs/WireP.vio Proofs/SerP.vio Proofs/FramingP.vio
+Properties/C02.vos Properties/C02.vok Properties/C02.required_vos: Properties/C02.v Model/Base.vos Model/Schema.vos Model/Wire.vos Model/Typed.vos Model/Procs.vos Model/Inst.vos Spec/Tables.vos Spec/ProcTables.vos Proofs/Finite.vos Spec/Canonical.vos Proofs/WireP.vos Proofs/SerP.vos Proofs/FramingP.vos
 Properties/C01.vo Properties/C01.glob Properties/C01.v.beautified Properties/C01.required_vo: Properties/C01.v Model/Base.vo Model/Schema.vo Model/Wire.vo Model/Utf8.vo Model/Typed.vo Model/Procs.vo Model/Inst.vo Spec/Tables.vo Spec/ProcTables.vo Proofs/Finite.vo Spec/CborItem.vo Proofs/WireP.vo Proofs/SkipP.vo Proofs/TypedP.vo Proofs/EntriesP.vo Proofs/FramingP.vo Proofs/C11P.vo
 Properties/C01.vio: Properties/C01.v Model/Base.vio Model/Schema.vio Model/Wire.vio Model/Utf8.vio Model/Typed.vio Model/Procs.vio Model/Inst.vio Spec/Tables.vio Spec/ProcTables.vio Proofs/Finite.vio Spec/CborItem.vio Proofs/WireP.vio Proofs/SkipP.vio Proofs/TypedP.vio Proofs/EntriesP.vio Proofs/FramingP.vio Proofs/C11P.vio
 Properties/C01.vos Properties/C01.vok Properties/C01.required_vos: Properties/C01.v Model/Base.vos Model/Schema.vos Model/Wire.vos Model/Utf8.vos Model/Typed.vos Model/Procs.vos Model/Inst.vos Spec/Tables.vos Spec/ProcTables.vos Proofs/Finite.vos Spec/CborItem.vos Proofs/WireP.vos Proofs/SkipP.vos Proofs/TypedP.vos Proofs/EntriesP.vos Proofs/FramingP.vos Proofs/C11P.vos
@@ -79,6 +79,9 @@ Proofs/TypedP.vos Proofs/TypedP.vok Proofs/TypedP.required_vos: Proofs/TypedP.v 
 Proofs/EntriesP.vo Proofs/EntriesP.glob Proofs/EntriesP.v.beautified Proofs/EntriesP.required_vo: Proofs/EntriesP.v Model/Base.vo Model/Schema.vo Model/Wire.vo Model/Utf8.vo Model/Typed.vo Spec/CborItem.vo Proofs/WireP.vo Proofs/SkipP.vo Proofs/TypedP.vo
 Proofs/EntriesP.vio: Proofs/EntriesP.v Model/Base.vio Model/Schema.vio Model/Wire.vio Model/Utf8.vio Model/Typed.vio Spec/CborItem.vio Proofs/WireP.vio Proofs/SkipP.vio Proofs/TypedP.vio
 Proofs/EntriesP.vos Proofs/EntriesP.vok Proofs/EntriesP.required_vos: Proofs/EntriesP.v Model/Base.vos Model/Schema.vos Model/Wire.vos Model/Utf8.vos Model/Typed.vos Spec/CborItem.vos Proofs/WireP.vos Proofs/SkipP.vos Proofs/TypedP.vos
+Proofs/SerP.vo Proofs/SerP.glob Proofs/SerP.v.beautified Proofs/SerP.required_vo: Proofs/SerP.v Model/Base.vo Model/Schema.vo Model/Wire.vo Model/Utf8.vo Model/Typed.vo Spec/Canonical.vo Proofs/WireP.vo
+Proofs/SerP.vio: Proofs/SerP.v Model/Base.vio Model/Schema.vio Model/Wire.vio Model/Utf8.vio Model/Typed.vio Spec/Canonical.vio Proofs/WireP.vio
+Proofs/SerP.vos Proofs/SerP.vok Proofs/SerP.required_vos: Proofs/SerP.v Model/Base.vos Model/Schema.vos Model/Wire.vos Model/Utf8.vos Model/Typed.vos Spec/Canonical.vos Proofs/WireP.vos
 Properties/C06.vo Properties/C06.glob Properties/C06.v.beautified Properties/C06.required_vo: Properties/C06.v Model/Base.vo Model/Schema.vo Model/Wire.vo Model/Utf8.vo Model/Typed.vo Model/Procs.vo Model/Inst.vo Spec/Tables.vo Spec/CborItem.vo Proofs/WireP.vo Proofs/SkipP.vo Proofs/TypedP.vo Proofs/EntriesP.vo Proofs/FramingP.vo
 Properties/C06.vio: Properties/C06.v Model/Base.vio Model/Schema.vio Model/Wire.vio Model/Utf8.vio Model/Typed.vio Model/Procs.vio Model/Inst.vio Spec/Tables.vio Spec/CborItem.vio Proofs/WireP.vio Proofs/SkipP.vio Proofs/TypedP.vio Proofs/EntriesP.vio Proofs/FramingP.vio
 Properties/C06.vos Properties/C06.vok Properties/C06.required_vos: Properties/C06.v Model/Base.vos Model/Schema.vos Model/Wire.vos Model/Utf8.vos Model/Typed.vos Model/Procs.vos Model/Inst.vos Spec/Tables.vos Spec/CborItem.vos Proofs/WireP.vos Proofs/SkipP.vos Proofs/TypedP.vos Proofs/EntriesP.vos Proofs/FramingP.vos
